@@ -34,6 +34,16 @@ type Case struct {
 	Nest     int      `json:"nest"`
 	MType    int      `json:"mtype"`
 	MBody    string   `json:"mbody"`
+	Form     string   `json:"form"`  // env: "nilmap" | "map"
+	Clear    bool     `json:"clear"` // env: the request's clear flag
+	Views    []View   `json:"views"` // env: the views of the request
+}
+
+// View is one view of an import-roaring request envelope: its name and the class of its
+// data ("valid" | "zero" | "short" | "garbage").
+type View struct {
+	Name string `json:"name"`
+	Data string `json:"data"`
 }
 
 // CorKind is the matcher field "cor": kind/sec of every corruption, sorted, joined by '+'.
@@ -46,6 +56,12 @@ func (c *Case) CorKind() string {
 		return "tokens"
 	case "msg":
 		return "body/" + c.MBody
+	case "env":
+		k := fmt.Sprintf("env/%s/%dviews", c.Form, len(c.Views))
+		for _, v := range c.Views {
+			k += "/" + v.Data
+		}
+		return k
 	}
 	if len(c.Cors) == 0 {
 		return "none"
